@@ -585,6 +585,10 @@ theorem FRel.asChar {tail : List UInt8} (n : Nat) :
     FRel tail (asChar n) (asChar n) := by
   unfold Parse.asChar; fsim
 macro_rules | `(tactic| fsim_lemma) => `(tactic| with_reducible exact FRel.asChar ..)
+theorem FRel.asEscapedChar {tail : List UInt8} (n : Nat) :
+    FRel tail (asEscapedChar n) (asEscapedChar n) := by
+  unfold Parse.asEscapedChar; fsim
+macro_rules | `(tactic| fsim_lemma) => `(tactic| with_reducible exact FRel.asEscapedChar ..)
 theorem FRel.decodeElispCharEscape {tail : List UInt8} (fuel : Nat) :
     FRel tail (decodeElispCharEscape fuel) (decodeElispCharEscape fuel) := by
   unfold Parse.decodeElispCharEscape; fsim
